@@ -1,6 +1,7 @@
 import DM.Drv.C12
 import DM.Drv.C06
 import DM.Drv.C07
+import DM.Drv.C08
 open DM.Drv
 
 def dispatch (args : List String) : String :=
@@ -11,6 +12,9 @@ def dispatch (args : List String) : String :=
   | some r => r
   | none =>
   match c07 args with
+  | some r => r
+  | none =>
+  match c08 args with
   | some r => r
   | none => "bad-op"
 
